@@ -327,6 +327,22 @@ func Structured(rng *rand.Rand) []Input {
 		}
 		add(ph, abs.Op{NI: topNI, Kind: kind, Key: "k1", PL: abs.TopPayloads[0], G: g, GNI: gni})
 	}
+	if rng.Intn(3) == 0 {
+		// the entry is the same on both sides but for its decapsulation header (payload "d" = payload "a" + decapsulation)
+		tpl, ipl := "a", "d"
+		if rng.Intn(2) == 0 {
+			tpl, ipl = "d", "a"
+		}
+		for _, ph := range []string{"T", "I"} {
+			if ph == "I" {
+				ins = append(ins, Input{Ph: "freeze", Scratch: true})
+			}
+			add(ph, abs.Op{NI: topNI, Kind: "nh", Key: "1", PL: "a"})
+			add(ph, abs.Op{NI: topNI, Kind: "nhg", Key: "1", PL: abs.NHGPayloads[0], NHs: []string{"1"}})
+			add(ph, abs.Op{NI: topNI, Kind: kind, Key: "k1", PL: map[string]string{"T": tpl, "I": ipl}[ph], G: "1"})
+		}
+		return ins
+	}
 	build("T", tG, tg)
 	if rng.Intn(3) == 0 {
 		// the target was populated, read, and then flushed (all of it, or the instance of the top-level entry)
@@ -451,6 +467,7 @@ func Random(rng *rand.Rand) []Input {
 // calls a real server holding the target RIB, rib.FromGetResponses): its plan must be the local one.
 
 type getIter struct {
+	n int
 	grpc.ClientStream
 	rs []*spb.GetResponse
 }
@@ -461,6 +478,16 @@ func (g *getIter) Recv() (*spb.GetResponse, error) {
 	}
 	r := g.rs[0]
 	g.rs = g.rs[1:]
+	// a device may fill in the optional programming status of an entry; whatever it says, the entry is in its RIB
+	g.n++
+	for i, e := range r.GetEntry() {
+		switch (g.n + i) % 3 {
+		case 1:
+			e.RibStatus, e.FibStatus = spb.AFTEntry_PROGRAMMED, spb.AFTEntry_NOT_PROGRAMMED
+		case 2:
+			e.RibStatus, e.FibStatus = spb.AFTEntry_PROGRAMMED, spb.AFTEntry_PROGRAMMED
+		}
+	}
 	return r, nil
 }
 
